@@ -84,6 +84,16 @@ def construct(I: Interp, cname, args, kwargs):
                     a.get("operator"), a.get("source"))
 
 
+def construct_dict(I, cname, args, kwargs):
+    """ExplainableObjectDict(): an empty dictionary (its key list is known once the first key is written)"""
+    if args or kwargs: raise Unsupported("ExplainableObjectDict with initial content")
+    d = KDict(KeyStub(), None, dom=lambda k: z3.BoolVal(False))
+    d.explainable_dict = True       # ExplainableObjectDict.__setitem__ attaches its values to the model: they must carry a label
+    return d
+
+
+SPECS[("ExplainableObjectDict", "__init__")] = construct_dict
+
 for _c in ("EmptyExplainableObject", "ExplainableQuantity", "ExplainableHourlyQuantities", "ExplainableObject",
            "SourceValue", "SourceHourlyValues", "SourceObject"):
     SPECS[(_c, "__init__")] = construct
